@@ -499,6 +499,25 @@ func TestVerifDriver(t *testing.T) {
 		r := vRand(4)
 		n := vEnvInt("VERIF_N", 300)
 		dec := func(s string) { do("bech32.Decode", M{"s": vInts([]byte(s))}) }
+		// every letter as the ONLY letter of its case: in a prefix handed to Encode, and in a string handed to Decode
+		{
+			const abc = "abcdefghijklmnopqrstuvwxyz"
+			data := []byte{1, 2, 3, 4, 5}
+			valid, _ := Encode(abc, data)
+			for i := 0; i < 26; i++ {
+				c := abc[i]
+				do("bech32.Encode", M{"hrp": vInts([]byte{'m', c - 32}), "data": vInts(data)})
+				do("bech32.Encode", M{"hrp": vInts([]byte{'M', '2', c}), "data": vInts(data)})
+				if valid != "" {
+					b := []byte(valid)
+					b[i] -= 32
+					dec(string(b))
+					u := []byte(strings.ToUpper(valid))
+					u[i] += 32
+					dec(string(u))
+				}
+			}
+		}
 		// code points whose case mappings land in (or near) ASCII, plus other multi-byte material
 		special := []string{"K", "ſ", "İ", "ı", "Ω", "Å", "ẞ", "Ⱥ", "ß", "é",
 			"\xff", "\xc0\x80", "\xe2\x84", "̇", "�", "\U0001f600"}
